@@ -227,6 +227,12 @@ func (level Level) ShortTag(length int) string {
 	}
 
 	if t := level.String(); len(t) > 0 {
+		if r := []rune(t); len(r) != len(t) { // a title with multi-byte characters: count characters, not bytes
+			if len(r) >= length {
+				return string(r[:length])
+			}
+			return t + strings.Repeat(" ", length-len(r))
+		}
 		switch l := len(t); {
 		case l == length:
 			return t
